@@ -696,7 +696,7 @@ func runDB(spec DBSpec, dir string, serial bool) (obs DBObs) {
 		prog := spec.Programs[g]
 		rs := make([]OpResult, 0, len(prog))
 		for _, op := range prog {
-			rs = append(rs, execOp(withSess(handle(), op.Sess), base, op, &obs.Panics, &pmu))
+			rs = append(rs, runOp(handle(), base, op, &obs.Panics, &pmu))
 		}
 		obs.Results[g] = rs
 	}
@@ -750,7 +750,7 @@ func runDB(spec DBSpec, dir string, serial bool) (obs DBObs) {
 					if atomic.LoadInt32(&abort) != 0 {
 						return
 					}
-					results[g][i] = execOp(withSess(handle(), op.Sess), base, op, &obs.Panics, &pmu)
+					results[g][i] = runOp(handle(), base, op, &obs.Panics, &pmu)
 					atomic.StoreInt32(&doneOps[g], int32(i+1))
 				}
 			}(g)
@@ -1550,33 +1550,90 @@ func genStaggered(r *lib.Rng, g int) DBSpec {
 
 // withSess derives the handle an operation runs on from the shared one: every Session option copies
 // the shared Config / Statement in its own way.
-func withSess(h *gorm.DB, sess string) *gorm.DB {
+// withSess derives the handle an operation runs on from the shared one.  sess is a "+"-joined set of
+// Session options (every option copies, or fails to copy, the shared Config / Statement in its own
+// way): newdb ctx skiphooks prep skipdeftx batch fullsave nowfunc propunscoped dryrun; the single
+// words "wctx" / "debug" mean WithContext / Debug.  A ctx belongs to this operation only and is
+// cancelled when the operation is over (the end of a request).
+func withSess(h *gorm.DB, sess string) (*gorm.DB, func()) {
+	done := func() {}
 	switch sess {
-	case "ctx":
-		return h.WithContext(context.Background())
+	case "":
+		return h, done
+	case "wctx":
+		ctx, cancel := context.WithCancel(context.Background())
+		return h.WithContext(ctx), cancel
 	case "debug":
-		return h.Debug()
-	case "skipdeftx":
-		return h.Session(&gorm.Session{SkipDefaultTransaction: true})
-	case "batch":
-		return h.Session(&gorm.Session{CreateBatchSize: 2})
-	case "fullsave":
-		return h.Session(&gorm.Session{FullSaveAssociations: true})
-	case "newdb":
-		return h.Session(&gorm.Session{NewDB: true})
-	case "nowfunc":
-		return h.Session(&gorm.Session{NowFunc: func() time.Time { return time.Now() }, Logger: logger.Discard})
-	case "propunscoped":
-		return h.Session(&gorm.Session{PropagateUnscoped: true, AllowGlobalUpdate: true})
-	case "skiphooks":
-		return h.Session(&gorm.Session{SkipHooks: true})
-	case "dryrun":
-		return h.Session(&gorm.Session{DryRun: true})
+		return h.Debug(), done
 	}
-	return h
+	var cfg gorm.Session
+	for _, f := range strings.Split(sess, "+") {
+		switch f {
+		case "newdb":
+			cfg.NewDB = true
+		case "ctx":
+			ctx, cancel := context.WithCancel(context.Background())
+			cfg.Context, done = ctx, cancel
+		case "skiphooks":
+			cfg.SkipHooks = true
+		case "prep":
+			cfg.PrepareStmt = true
+		case "skipdeftx":
+			cfg.SkipDefaultTransaction = true
+		case "batch":
+			cfg.CreateBatchSize = 2
+		case "fullsave":
+			cfg.FullSaveAssociations = true
+		case "nowfunc":
+			cfg.NowFunc, cfg.Logger = func() time.Time { return time.Now() }, logger.Discard
+		case "propunscoped":
+			cfg.PropagateUnscoped, cfg.AllowGlobalUpdate = true, true
+		case "dryrun":
+			cfg.DryRun = true
+		}
+	}
+	return h.Session(&cfg), done
 }
 
-var sessKinds = []string{"ctx", "debug", "skipdeftx", "batch", "fullsave", "newdb", "nowfunc", "propunscoped", "skiphooks", "dryrun"}
+// runOp: the operation on its own derived handle, then the end of its context
+func runOp(h *gorm.DB, base *gorm.DB, op Op, panics *[]string, pmu *sync.Mutex) OpResult {
+	hh, done := withSess(h, op.Sess)
+	defer done()
+	return execOp(hh, base, op, panics, pmu)
+}
+
+var sessFlags = []string{"newdb", "ctx", "skiphooks", "prep", "skipdeftx", "batch", "fullsave", "nowfunc", "propunscoped", "dryrun"}
+
+// sessCombo: one option, a pair (every pair occurs), now and then three
+func sessCombo(r *lib.Rng) string {
+	switch r.Intn(10) {
+	case 0:
+		return "wctx"
+	case 1:
+		return "debug"
+	case 2, 3:
+		return sessFlags[r.Intn(len(sessFlags))]
+	}
+	n := 2
+	if r.Chance(1, 5) {
+		n = 3
+	}
+	pick := map[string]bool{}
+	var out []string
+	for len(out) < n {
+		f := sessFlags[r.Intn(len(sessFlags))]
+		if f == "dryrun" && r.Chance(2, 3) {
+			continue // keeps most operations effective
+		}
+		if !pick[f] {
+			pick[f] = true
+			out = append(out, f)
+		}
+	}
+	sort.Strings(out)
+	return strings.Join(out, "+")
+}
+
 
 // ownRows: the goroutine's own id range, in the form op.Cond asks for
 func ownRows(h *gorm.DB, op Op) *gorm.DB {
@@ -1602,6 +1659,15 @@ var condKinds = []string{"struct", "map", "ids", "not", "or"}
 // sprinkle: session options, condition forms and Row() on a share of the operations of a generated
 // spec (the same in the concurrent and in the serial run: they are part of the spec)
 func sprinkle(r *lib.Rng, spec *DBSpec) {
+	defer func() {
+		for _, p := range spec.Programs {
+			for _, op := range p {
+				if strings.Contains(op.Sess, "prep") && spec.Conns < spec.G {
+					spec.Conns = spec.G // see genSessMix
+				}
+			}
+		}
+	}()
 	for g := range spec.Programs {
 		for i := range spec.Programs[g] {
 			op := &spec.Programs[g][i]
@@ -1611,7 +1677,7 @@ func sprinkle(r *lib.Rng, spec *DBSpec) {
 					op.Sess = "prepintx"
 				}
 			case r.Chance(1, 4):
-				op.Sess = sessKinds[r.Intn(len(sessKinds))]
+				op.Sess = sessCombo(r)
 			}
 			if op.Kind == "find" && r.Chance(1, 3) {
 				op.Cond = condKinds[r.Intn(len(condKinds))]
@@ -1647,5 +1713,99 @@ func genBadDB(r *lib.Rng, g int) DBSpec {
 			bad("count"), {Kind: "find", T: bk, Lo: lo, Hi: hi}, {Kind: "find", T: u, Lo: lo, Hi: hi}, bad("first")}
 		spec.Programs = append(spec.Programs, prog)
 	}
+	return spec
+}
+
+// genSessMix: hooked and plain models; about half of the operations run on handle.Session(<one, two or
+// three options>), the others plainly on the shared handle, so that whatever an option combination
+// leaves behind in the shared handle shows in somebody's plain operation (hooks, context, pool).
+func genSessMix(r *lib.Rng, g int, thorough bool) DBSpec {
+	hk := poolByName["HkDoc"]
+	singles := Families["single"]
+	u := singles[r.Intn(len(singles))]
+	// Conns = G: with a prepared-statement store and fewer connections than goroutines gorm can
+	// deadlock (known finding preparestmt-tx-pool-smaller-than-goroutines)
+	spec := DBSpec{G: g, Cold: r.Chance(1, 3), PrepareStmt: r.Chance(1, 4), Conns: g, Types: []int{hk, poolByName["TbDoc"], u}}
+	steps := 10
+	if thorough {
+		steps = 24
+	}
+	for gi := 0; gi < g; gi++ {
+		base := int64(gi) * idSpan
+		lo, hi := base+1, base+idSpan-1
+		var prog []Op
+		next := int64(0)
+		for k := 0; k < steps; k++ {
+			t := lib.Pick(r, []int{hk, hk, u})
+			var op Op
+			switch r.Intn(5) {
+			case 0, 1:
+				next++
+				op = Op{Kind: "create", T: t, ID: base + next, Name: fmt.Sprintf("n%d", next), Val: next}
+			case 2:
+				op = Op{Kind: "find", T: t, Lo: lo, Hi: hi}
+			case 3:
+				op = Op{Kind: "update", T: t, ID: base + 1 + int64(r.Intn(int(next)+1)), Val: int64(100 + k)}
+			default:
+				op = Op{Kind: "first", T: t, ID: base + 1, Lo: lo, Hi: hi}
+			}
+			if r.Bool() {
+				op.Sess = sessCombo(r)
+			}
+			prog = append(prog, op)
+		}
+		spec.Programs = append(spec.Programs, prog)
+	}
+	spec.SyncOps = 3
+	return spec
+}
+
+// genJoinReaders: rows read through Joins("Rel") (association join: the columns of the joined model are
+// scanned through the pools of ITS fields) by all goroutines at the same moment, step by step behind
+// the spin barrier; every row and every joined row has values of its own.
+func genJoinReaders(r *lib.Rng, g int, thorough bool) DBSpec {
+	type jr struct {
+		t   int
+		rel RelDesc
+	}
+	var cands []jr
+	for _, d := range Pool {
+		if d.Bad || d.Family == "bad" {
+			continue
+		}
+		for _, rl := range okRels(d.Idx, "belongs_to", "has_one") {
+			if rl.To != d.Idx && Pool[rl.To].Family == d.Family {
+				cands = append(cands, jr{d.Idx, rl})
+			}
+		}
+	}
+	c := cands[r.Intn(len(cands))]
+	spec := DBSpec{G: g, Cold: r.Chance(1, 3), PrepareStmt: r.Bool(), Conns: 4, Types: append([]int{}, Families[Pool[c.t].Family]...)}
+	if spec.PrepareStmt {
+		spec.Conns = g
+	}
+	steps := 10
+	if thorough {
+		steps = 24
+	}
+	for gi := 0; gi < g; gi++ {
+		base := int64(gi) * idSpan
+		lo, hi := base+1, base+idSpan-1
+		var prog []Op
+		for k := int64(1); k <= 3; k++ {
+			if c.rel.Kind == "belongs_to" {
+				prog = append(prog, Op{Kind: "create", T: c.rel.To, ID: base + k, Name: fmt.Sprintf("o%d", k), Val: k},
+					Op{Kind: "create", T: c.t, ID: base + k, Name: fmt.Sprintf("c%d", k), Val: k, FK: c.rel.FK, Par: base + k})
+			} else {
+				prog = append(prog, Op{Kind: "create", T: c.t, ID: base + k, Name: fmt.Sprintf("o%d", k), Val: k},
+					Op{Kind: "create", T: c.rel.To, ID: base + k, Name: fmt.Sprintf("c%d", k), Val: k, FK: c.rel.FK, Par: base + k})
+			}
+		}
+		for k := 0; k < steps; k++ {
+			prog = append(prog, Op{Kind: "joins", T: c.t, Rel: c.rel.Field, RelT: c.rel.To, Lo: lo, Hi: hi})
+		}
+		spec.Programs = append(spec.Programs, prog)
+	}
+	spec.SyncOps = len(spec.Programs[0])
 	return spec
 }
